@@ -339,7 +339,10 @@ def cov_strategy(draw):
 @st.composite
 def stop_strategy(draw):
     kind = draw(st.sampled_from(["constant", "alternating", "noisy"]))
-    val = st.floats(-1e6, 1e6) | st.sampled_from([0.0, 1.0, -3.5, 1e-3])
+    # (values on a 1e-6 lattice: spreads far below 1e-3 are outside the
+    # property's domain and squares of ~1e-155 underflow to sub-normals)
+    val = st.floats(-1e6, 1e6).map(lambda v: round(v, 6)) | \
+        st.sampled_from([0.0, 1.0, -3.5, 1e-3])
     if kind == "constant":
         gen = {"kind": kind, "c": draw(val)}
     elif kind == "alternating":
